@@ -73,22 +73,26 @@ Proof.
   cbn [String.prefix]. destruct (ascii_dec x x); [apply IH|congruence].
 Qed.
 
+Lemma strdom_sdrop var lits word ci :
+  strdom var lits word -> var = Repaired \/ (all_plain lits /\ plain (sdrop ci word) = true).
+Proof. intros [H|[H1 H2]]; [now left|right]. split; [exact H1|now apply plain_sdrop]. Qed.
+
 (** *** (a) a fully typed value is recognised *)
 Theorem fixed_value_recognised :
-  forall fuel tabs e T word s st ci v to log,
-    all_plain (lits_of T) -> plain word = true -> sorted_desc (lits_of T) ->
+  forall var fuel tabs e T word s st ci v to log,
+    var <> Pinned -> strdom var (lits_of T) word -> sorted_desc (lits_of T) ->
     assocN s (t_mlit T) = Some st ->
     sdrop ci word = v -> (ci < String.length word)%nat ->
     first_enabled (lits_of T) st v = Some to ->
-    sw_loop (S (S fuel)) Fixed false tabs e T word s ci log = Ok (true, to, String.length word, log).
+    sw_loop (S (S fuel)) var false tabs e T word s ci log = Ok (true, to, String.length word, log).
 Proof.
-  intros fuel tabs e T word s st ci v to log Hpl Hpw Hs Hst Hv Hci Hf.
+  intros var fuel tabs e T word s st ci v to log Hvar Hdom Hs Hst Hv Hci Hf.
   rewrite sw_loop_S.
   assert (Nat.leb (String.length word) ci = false) as -> by (apply Nat.leb_gt; exact Hci).
-  cbv zeta. rewrite Hst, Hv. unfold lit_loop.
-  assert (Hpv : plain v = true) by (rewrite <- Hv; now apply plain_sdrop).
+  pose proof (strdom_sdrop var _ word ci Hdom) as Hd. rewrite Hv in Hd.
+  cbv zeta. rewrite Hst, Hv.
   fold (lits_of T).
-  rewrite (lit_loop_fixed_plain false st v (lits_of T) Hpl Hpv). cbn [obind].
+  rewrite (lit_loop_nonpinned var false st v (lits_of T) Hvar Hd). cbn [obind].
   rewrite (fixed_consumes_value st v (lits_of T) to Hs Hf).
   rewrite sw_loop_S.
   assert (L : (ci + String.length v = String.length word)%nat).
@@ -140,33 +144,35 @@ Qed.
 
 (** *** (b) a partially typed value: the loop stops in front of it ... *)
 Theorem fixed_partial_stops :
-  forall fuel tabs e T word s st ci log,
-    all_plain (lits_of T) -> plain word = true -> sorted_desc (lits_of T) ->
+  forall var fuel tabs e T word s st ci log,
+    var <> Pinned -> strdom var (lits_of T) word -> sorted_desc (lits_of T) ->
     assocN s (t_mlit T) = Some st ->
     (exists id v to, In (id, v) (lits_of T) /\ assocN id st = Some to
                      /\ String.prefix (sdrop ci word) v = true /\ sdrop ci word <> v) ->
-    exists m, sw_loop (S fuel) Fixed true tabs e T word s ci log = Ok (m, s, ci, log).
+    exists m, sw_loop (S fuel) var true tabs e T word s ci log = Ok (m, s, ci, log).
 Proof.
-  intros fuel tabs e T word s st ci log Hpl Hpw Hs Hst Hex.
+  intros var fuel tabs e T word s st ci log Hvar Hdom Hs Hst Hex.
   rewrite sw_loop_S.
   destruct (Nat.leb (String.length word) ci); [now exists true|].
-  cbv zeta. rewrite Hst. unfold lit_loop. fold (lits_of T).
-  rewrite (lit_loop_fixed_plain true st _ (lits_of T) Hpl (plain_sdrop ci word Hpw)). cbn [obind].
+  cbv zeta. rewrite Hst. fold (lits_of T).
+  rewrite (lit_loop_nonpinned var true st _ (lits_of T) Hvar (strdom_sdrop var _ word ci Hdom)). cbn [obind].
   rewrite (fixed_stops_at_partial st _ (lits_of T) Hs Hex).
   now exists false.
 Qed.
 
 (** ... and the completion part offers exactly the level-0 literals of that state that extend the typed word *)
 Theorem levels_offer_extensions :
-  forall n tabs e T word s ci log,
+  forall var n tabs e T word s ci log,
     e_ignore_case e = false -> printable_str word = true ->
     t_ccmd T = None ->
     filter (String.prefix word) (map (fun id => (stake ci word ++ literal_at T id)%string) (level_row (t_clit T) 0 s)) <> [] ->
-    sw_levels (S n) 0 tabs e T s (stake ci word) (sdrop ci word) [] [] log
+    sw_levels (S n) 0 var tabs e T s (stake ci word) (sdrop ci word) [] [] log
     = Ok (filter (String.prefix word) (map (fun id => (stake ci word ++ literal_at T id)%string) (level_row (t_clit T) 0 s)), log).
 Proof.
-  intros n tabs e T word s ci log Hi Hp Hc Hne.
-  cbn [sw_levels]. rewrite stake_sdrop. cbn [List.app].
+  intros var n tabs e T word s ci log Hi Hp Hc Hne.
+  cbn [sw_levels]. rewrite stake_sdrop.
+  replace (if quirky var then @nil string else []) with (@nil string) by (destruct (quirky var); reflexivity).
+  cbn [List.app].
   rewrite (match_fn_prefix_filter e word _ Hi Hp). cbn [obind]. rewrite Hc. cbn [obind].
   destruct (filter _ _) eqn:E; [contradiction|reflexivity].
 Qed.
@@ -181,23 +187,20 @@ Qed.
 
 (** *** the literal prefix piece of the word is consumed first *)
 Theorem fixed_piece_consumed :
-  forall fuel complete tabs e T word s st ci lid lit to log,
-    all_plain (lits_of T) -> plain word = true ->
+  forall var fuel complete tabs e T word s st ci lid lit to log,
+    var <> Pinned -> strdom var (lits_of T) word ->
     assocN s (t_mlit T) = Some st ->
     (forall id l t, In (id, l) (lits_of T) -> assocN id st = Some t -> id = lid /\ l = lit) ->
     In (lid, lit) (lits_of T) -> assocN lid st = Some to ->
     String.prefix lit (sdrop ci word) = true ->
     (ci < String.length word)%nat ->
-    sw_loop (S fuel) Fixed complete tabs e T word s ci log
-    = sw_loop fuel Fixed complete tabs e T word to (ci + String.length lit) log.
+    sw_loop (S fuel) var complete tabs e T word s ci log
+    = sw_loop fuel var complete tabs e T word to (ci + String.length lit) log.
 Proof.
-  intros fuel complete tabs e T word s st ci lid lit to log Hpl Hpw Hst Hu Hin Ha Hp Hl.
+  intros var fuel complete tabs e T word s st ci lid lit to log Hvar Hdom Hst Hu Hin Ha Hp Hl.
   rewrite sw_loop_S.
   assert (Nat.leb (String.length word) ci = false) as -> by (apply Nat.leb_gt; lia).
-  cbv zeta. rewrite Hst. unfold lit_loop. fold (lits_of T).
-  assert (lit_loop_fixed complete (lits_of T) st (sdrop ci word)
-          = Ok (SCont to (String.length lit))) as E.
-  { rewrite (lit_loop_fixed_plain complete st _ (lits_of T) Hpl (plain_sdrop ci word Hpw)).
-    now rewrite (fixed_consumes_piece complete st _ (lits_of T) lid lit to Hu Hin Ha Hp). }
-  destruct complete; rewrite E; reflexivity.
+  cbv zeta. rewrite Hst. fold (lits_of T).
+  rewrite (lit_loop_nonpinned var complete st _ (lits_of T) Hvar (strdom_sdrop var _ word ci Hdom)).
+  now rewrite (fixed_consumes_piece complete st _ (lits_of T) lid lit to Hu Hin Ha Hp).
 Qed.
